@@ -1,5 +1,6 @@
 import Okane.Drv.Core
 import Okane.Model.Query
+import Okane.Lemmas.PriceTerm
 /-!
 Driver for C09.  Input: the output lines of `hx c09`
   `<id> tree=(...) pdb=((P (d Y M D) TARGET neg mant scale COMMODITY) ...) result=ok q=(((d Y M D) A B <res>) ...)`
@@ -48,12 +49,12 @@ def argBest (better : Dist → Dist → Bool) : List (Item String) → Nat
       let (i, best, bd) := acc
       if better it.dist bd then (i + 1, i + 1, it.dist) else (i + 1, best, bd)) (0, 0, x.dist)).2.1
 
-def pickMax : Nat → List (Item String) → Nat := fun _ q => argBest (fun a b => distLt b a) q
-def pickMin : Nat → List (Item String) → Nat := fun _ q => argBest (fun a b => distLt a b) q
-def pickFifo : Nat → List (Item String) → Nat := fun _ _ => 0
-def pickLifo : Nat → List (Item String) → Nat := fun _ q => q.length - 1
+def pickMax : String → Date → Nat → List (Item String) → Nat := fun _ _ _ q => argBest (fun a b => distLt b a) q
+def pickMin : String → Date → Nat → List (Item String) → Nat := fun _ _ _ q => argBest (fun a b => distLt a b) q
+def pickFifo : String → Date → Nat → List (Item String) → Nat := fun _ _ _ _ => 0
+def pickLifo : String → Date → Nat → List (Item String) → Nat := fun _ _ _ q => q.length - 1
 /-- greatest element, the *last* among equals -/
-def pickMaxLast : Nat → List (Item String) → Nat := fun _ q => argBest (fun a b => !distLt a b) q
+def pickMaxLast : String → Date → Nat → List (Item String) → Nat := fun _ _ _ q => argBest (fun a b => !distLt a b) q
 
 def ordId : String → List (String × PEntry) → List (String × PEntry) := fun _ l => l
 def ordRev : String → List (String × PEntry) → List (String × PEntry) := fun _ l => l.reverse
@@ -62,11 +63,109 @@ def ordRev : String → List (String × PEntry) → List (String × PEntry) := f
 def ordSorted : String → List (String × PEntry) → List (String × PEntry) :=
   fun _ l => isortBy (fun a b => decide (a.1 ≤ b.1)) l
 
+
+/-! ### a faithful simulation of `std::collections::BinaryHeap` (max-heap on `Distance`, Rust 1.8x `sift_up` /
+`sift_down_to_bottom`), used to obtain the exact pop sequence of `compute_price_table`.  The pop sequence is then
+turned into a `pick` function, so that the heap-ordered run is *an instance of the model* the theorems quantify
+over (`pickHeap`); the driver checks both that instance and the implementation against it. -/
+
+abbrev HItem := Item String
+
+def hLe (a b : HItem) : Bool := decide (a.dist ≤ b.dist)
+
+/-- `sift_up(start, pos)` -/
+partial def siftUp (data : Array HItem) (start pos : Nat) : Array HItem :=
+  if h : pos < data.size then
+    let elt := data[pos]
+    let rec go (data : Array HItem) (pos : Nat) : Array HItem × Nat :=
+      if pos > start then
+        let parent := (pos - 1) / 2
+        match data[parent]? with
+        | some pe => if hLe elt pe then (data, pos) else go (data.set! pos pe) parent
+        | none => (data, pos)
+      else (data, pos)
+    let (data, pos) := go data pos
+    data.set! pos elt
+  else data
+
+/-- `sift_down_to_bottom(0)` followed by `sift_up(start, pos)` -/
+partial def siftDownToBottom (data : Array HItem) (pos0 : Nat) : Array HItem :=
+  let stop := data.size
+  match data[pos0]? with
+  | none => data
+  | some elt =>
+    let rec go (data : Array HItem) (pos child : Nat) : Array HItem × Nat × Nat :=
+      if child + 2 ≤ stop then
+        match data[child]?, data[child + 1]? with
+        | some a, some b =>
+          let child := if hLe a b then child + 1 else child
+          match data[child]? with
+          | some c => go (data.set! pos c) child (2 * child + 1)
+          | none => (data, pos, child)
+        | _, _ => (data, pos, child)
+      else (data, pos, child)
+    let (data, pos, child) := go data pos0 (2 * pos0 + 1)
+    let (data, pos) :=
+      if child + 1 == stop then
+        match data[child]? with
+        | some c => (data.set! pos c, child)
+        | none => (data, pos)
+      else (data, pos)
+    siftUp (data.set! pos elt) pos0 pos
+
+def heapPush (data : Array HItem) (it : HItem) : Array HItem :=
+  let old := data.size
+  siftUp (data.push it) 0 old
+
+def heapPop (data : Array HItem) : Option (HItem × Array HItem) :=
+  match data.back? with
+  | none => none
+  | some last =>
+    let data := data.pop
+    if data.isEmpty then some (last, data)
+    else
+      match data[0]? with
+      | some top => some (top, siftDownToBottom (data.set! 0 last) 0)
+      | none => none
+
+/-- `compute_price_table` with the real heap and the sorted neighbour order: returns the table and the pop trace. -/
+partial def heapRun (repo : Builder String) (priceWith : String) (date : Date) : Table String × List HItem :=
+  let out := edgesAt ordSorted repo date
+  let rec go (heap : Array HItem) (t : Table String) (trace : List HItem) (n : Nat) : Table String × List HItem :=
+    if n == 0 then (t, trace.reverse) else
+    match heapPop heap with
+    | none => (t, trace.reverse)
+    | some (it, heap) =>
+      if isStale t it then go heap t (it :: trace) (n - 1)
+      else
+        let (t, heap) := (out it.node).foldl (fun (st : Table String × Array HItem) e =>
+          -- same decision as `Price.relax`; the push goes to the heap
+          let (t', pushed) := relax it.dist it.rate (st.1, []) e
+          (t', pushed.foldl heapPush st.2)) (t, heap)
+        go heap t (it :: trace) (n - 1)
+  go #[⟨Dist.zero, priceWith, 1⟩] [] [] 1000000
+
+/-- the heap's pop sequence as a `pick`: at step `i` choose the queued element equal to the `i`-th popped one. -/
+def pickHeap (repo : Builder String) (total : Nat) : String → Date → Nat → List HItem → Nat :=
+  fun priceWith date n q =>
+    let trace := (heapRun repo priceWith date).2
+    match trace[total - 1 - n]? with
+    | some it => (q.findIdx? (· == it)).getD 0
+    | none => 0
+
+def cfgHeap (repo : Builder String) (f : Nat) : Cfg String := ⟨f, pickHeap repo f, ordSorted⟩
+
+/-- fallback fuel where no single date is at hand (C10's balance queries) -/
 def fuel : Nat := 200000
 
-def cfgs : List (Cfg String) :=
-  [⟨fuel, pickMax, ordSorted⟩, ⟨fuel, pickMaxLast, ordSorted⟩, ⟨fuel, pickMax, ordId⟩, ⟨fuel, pickMax, ordRev⟩, ⟨fuel, pickMaxLast, ordId⟩, ⟨fuel, pickMaxLast, ordRev⟩,
-   ⟨fuel, pickMin, ordId⟩, ⟨fuel, pickMin, ordRev⟩, ⟨fuel, pickFifo, ordId⟩, ⟨fuel, pickLifo, ordRev⟩]
+/-- the pop orders / neighbour orders tried, with the given fuel.  For C09 the fuel is `fuelBound repo date`,
+the bound of theorem `C09_terminates`: a `fuelOut` would contradict it and shows up as a disagreement. -/
+def cfgsWith (f : Nat) : List (Cfg String) :=
+  [⟨f, pickMax, ordSorted⟩, ⟨f, pickMaxLast, ordSorted⟩, ⟨f, pickMax, ordId⟩, ⟨f, pickMax, ordRev⟩,
+   ⟨f, pickMaxLast, ordId⟩, ⟨f, pickMaxLast, ordRev⟩,
+   ⟨f, pickMin, ordId⟩, ⟨f, pickMin, ordRev⟩, ⟨f, pickFifo, ordId⟩, ⟨f, pickLifo, ordRev⟩]
+
+def cfgs : List (Cfg String) := cfgsWith fuel
 
 def leS (a b : String) : Bool := a ≤ b
 
@@ -144,7 +243,7 @@ def checkQuery (w : World) (t : Tally) : Sexp → Tally
   | .list [d, a, b, r] =>
     match decDate d, a.str?, b.str?, decRes r with
     | some date, some a, some b, some impl =>
-      let ms := cfgs.map fun cfg => modelEval w cfg date a b
+      let ms := (cfgsWith (fuelBound w.repo date)).map fun cfg => modelEval w cfg date a b
       let best := (ms.map (resCmp impl)).foldl max 0
       let first := ms.headD (.crash "none")
       let tie := ms.any fun m => resCmp first m != 2
